@@ -99,7 +99,8 @@ def fingerprint_url(url, unsplit=True, strip_suffix=False, platform_aware=False)
 
     netloc = unsplit_netloc(user, password, hostname, port)
 
-    result = SplitResult("", netloc, path, query, fragment)
+    # NOTE: normalization may have unescaped some uppercase characters
+    result = SplitResult("", netloc, path.lower(), query.lower(), fragment.lower())
 
     if not unsplit:
         return result
